@@ -15,7 +15,7 @@ fi
 rsync -a --exclude work --exclude .git /verif/ "$D/verif/"
 mkdir -p "$D/verif/work"
 for id in "$@"; do
-  ( cd "$D/verif" && DEPCCG_REPO="$D/repo" VERIF_TIER=${VERIF_TIER:-quick} timeout ${MUT_TIMEOUT:-900} ./check "$id" --tier ${VERIF_TIER:-quick} 2>&1 | grep -E "^(VIOLATION|OK|KNOWN|  broken|  failure)" | cut -c1-400 | head -8 )
+  ( cd "$D/verif" && DEPCCG_REPO="$D/repo" VERIF_TIER=${VERIF_TIER:-quick} timeout ${MUT_TIMEOUT:-2400} ./check "$id" --tier ${VERIF_TIER:-quick} 2>&1 | grep -E "^(VIOLATION|OK|KNOWN|  broken|  failure)" | cut -c1-400 | head -8 )
   cp "$D/verif/work/$id/replay.json" "/tmp/last_replay_$id.json" 2>/dev/null
   echo "[$id done]"
 done
